@@ -113,6 +113,9 @@ pub enum Val {
     /// a float given by its bit pattern (the trace file is JSON itself: a float written as a decimal would not
     /// be the same float after the replay file has been read back by a reader that rounds)
     FloatBits(u64),
+    /// the integer 1 wrapped in `depth` arrays (kind 0) or objects (kind 1) — a value nested more deeply than
+    /// JSON readers like (written compactly: the trace file is JSON itself)
+    Deep(u8, u8),
     Str(String),
     Bool(bool),
     Null,
@@ -127,6 +130,19 @@ impl Val {
             Val::Int(i) => Value::Integer(*i),
             Val::Float(f) => Value::Number(*f),
             Val::FloatBits(b) => Value::Number(f64::from_bits(*b)),
+            Val::Deep(depth, kind) => {
+                let mut v = Value::Integer(1);
+                for _ in 0..*depth {
+                    v = if kind % 2 == 0 {
+                        Value::Array(vec![v])
+                    } else {
+                        let mut m = HashMap::new();
+                        m.insert("d".to_string(), v);
+                        Value::Object(m)
+                    };
+                }
+                v
+            }
             Val::Str(s) => Value::String(s.clone()),
             Val::Bool(b) => Value::Boolean(*b),
             Val::Null => Value::Null,
@@ -1231,6 +1247,10 @@ fn sweep_offsets(len: usize, seed: u64) -> Vec<usize> {
 
 fn gen_val(rng: &mut Rng, depth: usize) -> Val {
     let strs = ["", "a", "q\"uote", "back\\slash", "né-ñ-漢", "ctl\n\t\u{1}", "}{,:", "null"];
+    if depth == 0 && rng.chance(1, 150) {
+        // nested 20 to 130 levels deep
+        return Val::Deep(*rng.pick(&[20u8, 62, 63, 64, 70, 130]), rng.below(2) as u8);
+    }
     match rng.usize(if depth >= 2 { 10 } else { 13 }) {
         0 | 1 | 2 => Val::Int(*rng.pick(&[0i64, 1, -1, 42, i64::MAX, i64::MIN, 1 << 53, 7])),
         3 => Val::Float(*rng.pick(&[0.0f64, -0.0, 0.1, 1.5, -2.25, 1e21, 1e-7, 123456.789, f64::MAX, f64::MIN_POSITIVE])),
